@@ -217,10 +217,36 @@ def run(ctx):
                 variants = set(re.findall(r"path::Component::(\w+)", ptxt))
                 if bad_ad:
                     problems.append("components are passed through `%s` before being tested" % ", ".join(bad_ad))
-                if x["m"] == "all" and not variants <= {"Normal", "CurDir"}:
-                    problems.append("allow-list admits %s" % sorted(variants - {"Normal", "CurDir"}))
-                if x["m"] == "any" and not {"ParentDir", "RootDir", "Prefix"} <= variants:
-                    problems.append("deny-list lacks %s" % sorted({"ParentDir", "RootDir", "Prefix"} - variants))
+                # decide the predicate over the five kinds of path component (finite domain), whatever its spelling
+                COMP = ["Prefix", "RootDir", "CurDir", "ParentDir", "Normal"]
+                decided = False
+                cl = hirq.strip(x["args"][0]) if x["args"] else None
+                if cl is not None and cl.get("k") == "closure" and x["m"] in ("all", "any"):
+                    pn = [b for p_ in cl.get("params", []) or [] for b in hirq.pat_binds(p_)]
+                    try:
+                        from .. import enumpred as _ep
+                        truth = {v_: _ep.holds(cl["body"], pn[0], COMP, v_) for v_ in COMP} if pn else None
+                    except Exception:
+                        truth = None
+                    if truth is not None:
+                        # is the call negated where it is used?  (`if !it.all(p) { bail }`  ==  `if it.any(!p) { bail }`)
+                        negated = False
+                        for y in hirq.walk(body):
+                            if y.get("k") == "un" and y["op"] == "Not" and hirq.strip(y["e"]) is x:
+                                negated = True
+                        if x["m"] == "all":
+                            rejected = {v_ for v_ in COMP if not truth[v_]} if negated else None
+                        else:
+                            rejected = {v_ for v_ in COMP if truth[v_]} if not negated else None
+                        if rejected is not None:
+                            decided = True
+                            if not {"ParentDir", "RootDir", "Prefix"} <= rejected:
+                                problems.append("components of kind %s are not rejected" % sorted({"ParentDir", "RootDir", "Prefix"} - rejected))
+                if not decided:
+                    if x["m"] == "all" and not variants <= {"Normal", "CurDir"}:
+                        problems.append("allow-list admits %s" % sorted(variants - {"Normal", "CurDir"}))
+                    if x["m"] == "any" and not {"ParentDir", "RootDir", "Prefix"} <= variants:
+                        problems.append("deny-list lacks %s" % sorted({"ParentDir", "RootDir", "Prefix"} - variants))
                 chains_ok = True
         if problems:
             ctx.bad(R_strict, "%s|strictness" % sp, sf.where, "; ".join(problems), "an absolute or prefixed entry name passes the check and `Path::join` then discards the output directory")
